@@ -4,6 +4,9 @@ import PartituraModel.Model.RangeNumbers
 import PartituraModel.Model.XmlNote
 import PartituraModel.Model.XmlDir
 import PartituraModel.Model.Binary64
+import PartituraModel.Model.XmlBar
+import PartituraModel.Model.XmlPartList
+import PartituraModel.Model.XmlTrace
 
 open Wire Model.Xml
 open Model.Ranges (Mark TieNote)
@@ -279,6 +282,103 @@ def fmtAttrRead (a : AttrRead) : String :=
 
 end DirWire
 
+namespace BarWire
+open Model.XmlNote Model.XmlBar Model.PartList XmlWire
+
+def pFermRef : P FermRef := do
+  let t ← tok
+  match t with
+  | "n" => pure .none
+  | "l" => pure .left
+  | "m" => pure .middle
+  | "r" => pure .right
+  | "o" => pure .object
+  | _ => P.fail
+
+def pBarSrc : P BarSrc := do
+  let fi ← list (do let t ← nat; let r ← pFermRef; pure (t, r))
+  let fa ← list (do let t ← nat; let r ← pFermRef; pure (t, r))
+  let rs ← list nat
+  let es ← list (do let t ← nat; let n ← pStr; pure (t, n))
+  let re ← list nat
+  let ee ← list (do let t ← nat; let n ← pStr; pure (t, n))
+  pure { fermIn := fi, fermAfter := fa, repeatStart := rs, endingStart := es, repeatEnd := re, endingEnd := ee }
+
+def pLoc : P Loc := do
+  let t ← tok
+  match t with
+  | "l" => pure .left
+  | "r" => pure .right
+  | "m" => pure .middle
+  | _ => P.fail
+
+def pBarItem : P BarItem := do
+  let t ← tok
+  match t with
+  | "F" => pure .fermata
+  | "RF" => pure .repeatFwd
+  | "RB" => pure .repeatBwd
+  | "ES" => do let n ← pStr; pure (.endingStart n)
+  | "EP" => do let n ← pStr; pure (.endingStop n)
+  | _ => P.fail
+
+def fmtBarItem : BarItem → String
+  | .fermata => "F"
+  | .repeatFwd => "RF"
+  | .repeatBwd => "RB"
+  | .endingStart n => "ES:" ++ encS n
+  | .endingStop n => "EP:" ++ encS n
+
+def pBarEv : P BarEv := do
+  let k ← tok
+  match k with
+  | "b" => do let d ← nat; pure (.backup d)
+  | "f" => do let d ← nat; pure (.forward d)
+  | "x" => do let x ← pXml; pure (.barline (readBarline x))
+  | _ => P.fail
+
+def sortedTexts (l : List String) : String := "[" ++ ",".intercalate (l.mergeSort (fun a b => decide (a ≤ b))) ++ "]"
+
+def fmtBarState (s : BarState) : String :=
+  fmtTuple [
+    sortedTexts (s.repeats.map fun r => fmtTuple [fmtOpt fmtNat r.start, fmtOpt fmtNat r.stop]),
+    sortedTexts (s.endings.map fun e => fmtTuple [fmtOpt encS e.number, fmtOpt fmtNat e.start, fmtOpt fmtNat e.stop]),
+    sortedTexts (s.fermatas.map fun f => fmtTuple [fmtNat f.1, fmtOpt encS f.2]),
+    sortedTexts (s.styles.map fun f => fmtTuple [fmtNat f.1, encS f.2])]
+
+def pHarmW : P HarmW := do
+  let k ← tok
+  match k with
+  | "rn" => do let t ← pStr; pure (.roman t)
+  | "cs" => do let r ← pStr; let kd ← opt pStr; let b ← opt pStr; pure (.chord r kd b)
+  | "cad" => do let t ← pStr; pure (.cadence t)
+  | _ => P.fail
+
+def fmtHarmObj : HarmObj → String
+  | .cadence t => "cad:" ++ fmtOpt encS t
+  | .roman t => "rn:" ++ encS t
+  | .chord r k b => "cs:" ++ encS r ++ ":" ++ fmtOpt encS k ++ ":" ++ fmtOpt encS b
+
+def fmtPages (l : List PageObj) : String :=
+  sortedTexts (l.map fun o => fmtTuple [fmtNat o.number, fmtNat o.start, fmtOpt fmtNat o.stop])
+
+def pGroupW : P GroupW := do
+  let gid ← nat; let number ← pStr; let sy ← opt pStr; let nm ← opt pStr
+  pure { gid := gid, number := number, symbol := sy, name := nm }
+
+def pPartW : P (PartW × List GroupW) := do
+  let id ← pStr; let nm ← opt pStr; let ab ← opt pStr; let anc ← list pGroupW
+  pure ({ id := id, name := nm, abbr := ab }, anc)
+
+def fmtForest : Forest GroupR PartR → List String
+  | .nil => []
+  | .part p r => ("p" ++ fmtTuple [fmtOpt encS p.id, fmtOpt encS p.name, fmtOpt encS p.abbr]) :: fmtForest r
+  | .group g c r =>
+    ("g" ++ fmtTuple [fmtOpt fmtInt g.number, fmtOpt encS g.symbol, fmtOpt encS g.name] ++ "[" ++
+      ",".intercalate (fmtForest c) ++ "]") :: fmtForest r
+
+end BarWire
+
 def handle (ts : List String) : String :=
   match ts with
   | "lin" :: rest =>
@@ -445,6 +545,74 @@ def handle (ts : List String) : String :=
     | some x =>
       match Model.XmlDir.readAttributes x with
       | some r => DirWire.fmtAttrRead r
+      | none => "err"
+    | none => "bad-request"
+  | "otr" :: rest =>
+    -- where the importer's reader is when it meets the non-note children: position:rank:signature, and whether every
+    -- position lies between the start and the furthest position reached, which is at most `stop`
+    match run (do let start ← nat; let stop ← nat; let evs ← list pEv; pure (start, stop, evs)) rest with
+    | some (start, stop, evs) =>
+      let tr := readOthers false start evs
+      fmtList (fun (e : OtherAt) => fmtNat e.pos ++ ":" ++ fmtNat e.order ++ ":" ++ e.sig) tr ++ "/" ++
+        fmtBool (tr.all fun e => decide (e.pos ≤ e.maxt) && decide (e.maxt ≤ stop))
+    | none => "bad-request"
+  | "wbar" :: rest =>
+    -- `do_barlines(part, start, end)`: the `(onset, <barline>)` list
+    match run (do let a ← nat; let b ← nat; let s ← BarWire.pBarSrc; pure (a, b, s)) rest with
+    | some (a, b, s) =>
+      fmtList (fun (e : Nat × Model.XmlNote.Xml) => fmtNat e.1 ++ ":" ++ XmlWire.fmtXml e.2) (Model.XmlBar.doBarlines a b s)
+    | none => "bad-request"
+  | "bars" :: rest =>
+    -- `_handle_measure` on measures that hold only backup / forward / barline
+    match run (list (list BarWire.pBarEv)) rest with
+    | some ms => BarWire.fmtBarState (Model.XmlBar.readBarMeasures ms)
+    | none => "bad-request"
+  | "cbar" :: rest =>
+    -- a written barline: the element, the hypothesis of barline_items_recovered, the children its reading accounts for
+    match run (do let l ← BarWire.pLoc; let items ← list BarWire.pBarItem; pure (l, items)) rest with
+    | some (l, items) =>
+      let x := Model.XmlBar.writeBarline l items
+      XmlWire.fmtXml x ++ "/" ++ fmtBool (decide (Model.XmlBar.BarSimple items)) ++ "/" ++
+        fmtList BarWire.fmtBarItem (Model.XmlBar.itemsOfRead (Model.XmlBar.readBarline x))
+    | none => "bad-request"
+  | "wharm" :: rest =>
+    match run BarWire.pHarmW rest with
+    | some h => XmlWire.fmtXml (Model.XmlBar.writeHarmony h) ++ "/" ++ fmtBool (decide (Model.XmlBar.WellFormedHarm h))
+    | none => "bad-request"
+  | "rharm" :: rest =>
+    match run XmlWire.pXml rest with
+    | some x =>
+      match Model.XmlBar.readHarmony x with
+      | some l => fmtList BarWire.fmtHarmObj l
+      | none => "err"
+    | none => "bad-request"
+  | "charm" :: rest =>
+    match run BarWire.pHarmW rest with
+    | some h =>
+      match Model.XmlBar.canonHarmony h with
+      | some l => fmtList BarWire.fmtHarmObj l
+      | none => "err"
+    | none => "bad-request"
+  | "wprint" :: rest =>
+    match run (do let ps ← list nat; let ss ← list nat; pure (ps, ss)) rest with
+    | some (ps, ss) =>
+      fmtList (fun (e : Nat × Model.XmlNote.Xml) => fmtNat e.1 ++ ":" ++ XmlWire.fmtXml e.2) (Model.XmlBar.doPrints ps ss)
+    | none => "bad-request"
+  | "prints" :: rest =>
+    match run (list (do let t ← nat; let x ← XmlWire.pXml; pure (t, Model.XmlBar.readPrint x))) rest with
+    | some ps =>
+      let st := Model.XmlBar.readPrints ps
+      fmtTuple [BarWire.fmtPages st.pages, BarWire.fmtPages st.systems]
+    | none => "bad-request"
+  | "wpl" :: rest =>
+    match run (list BarWire.pPartW) rest with
+    | some ps => fmtList XmlWire.fmtXml ((Model.PartList.writePartList ps).map Model.PartList.plXml)
+    | none => "bad-request"
+  | "rpl" :: rest =>
+    match run (list XmlWire.pXml) rest with
+    | some xs =>
+      match Model.PartList.parsePartList (xs.map Model.PartList.readPL) with
+      | some f => "[" ++ ",".intercalate (BarWire.fmtForest f) ++ "]"
       | none => "err"
     | none => "bad-request"
   | "arts" :: rest =>
